@@ -124,6 +124,16 @@ type ContractDB struct {
 	typeIDs    map[string]int
 	typeByID   map[int]types.Type
 	errs       []string
+	sideConds  []*SideCond
+}
+
+// SideCond is a syntactic side condition declared in a contract file.
+type SideCond struct {
+	Kind string
+	Tags []string
+	Arg  string
+	Pkg  *types.Package
+	Src  string
 }
 
 func newDB(w *World) *ContractDB {
@@ -546,6 +556,16 @@ func (db *ContractDB) parseLines(lines []srcLine, pkg *types.Package, trusted bo
 			}
 			db.axioms = append(db.axioms, se)
 			db.axiomPkg = append(db.axiomPkg, pkg)
+		case "immutable", "soledecl":
+			// immutable[tags] T.f      -- no instruction of the module writes field f of a T that already exists
+			// soledecl[tags] M T       -- among the module's types only T declares a method named M
+			// (syntactic side conditions, scanned over the SSA of the whole module on every check: sidecond.go)
+			cur = nil
+			if pkg == nil {
+				db.errf("%s: %s outside package", src, kw)
+				continue
+			}
+			db.sideConds = append(db.sideConds, &SideCond{Kind: kw, Tags: tags, Arg: strings.TrimSpace(rest), Pkg: pkg, Src: src})
 		case "guarded_by":
 			// guarded_by[C17] MultiHandler.mtx: f1, f2
 			cur = nil
